@@ -62,6 +62,14 @@ var Ops = []struct {
 	// first and a pattern in the second
 	{"generate-rep-literal", func() string { return generateDigest(specRepLiteral, false) }},
 	{"generate-rep-pattern", func() string { return generateDigest(specRepPattern, false) }},
+	// generations that fail inside the generator (the specification itself is accepted): conflicting definitions, an
+	// unresolved LALR(1) conflict
+	{"generate-fail-definitions", func() string {
+		return generateDigest("grammar gf ;\nAA = /[a-c]+/ ;\nBB = /[a-z]+/ ;\nstart = AA BB ;\n", false)
+	}},
+	{"generate-fail-lalr", func() string {
+		return generateDigest("grammar gl ;\nstart = e ;\ne = e \"+\" e | [ \"-\" \"-\" ] \"i\" ;\n", false)
+	}},
 	// operations that fail midway, each at a different stage: whatever they had begun must not stay behind
 	{"fail-pattern-unclosed-groups", func() string { return patternDigest(`((a|b`) }},
 	{"fail-pattern-deep-unclosed", func() string { return patternDigest(strings.Repeat("(", 40) + "a") }},
@@ -69,15 +77,25 @@ var Ops = []struct {
 	{"fail-pattern-ranges", func() string { return patternDigest(`(x{3,1}|[z-a]`) }},
 	{"fail-ast-unclosed-groups", func() string { return astDigest(`((a|b`) }},
 	{"fail-ast-class", func() string { return astDigest(`(\p{Nope}[^`) }},
-	{"fail-spec-lexical", func() string { return parseDigest("grammar g ;\nAA = /[a-c]+/ ;\nstart = ( [ { \"a\" \"b\" # ;\n", false, false) }},
-	{"fail-spec-syntax", func() string { return parseDigest("grammar g ;\n@left \"a\" ;\nstart = ( [ {{ \"a\" \"b\" }} [ \"a\" \"b\" ;\n", false, false) }},
+	{"fail-spec-lexical", func() string {
+		return parseDigest("grammar g ;\nAA = /[a-c]+/ ;\nstart = ( [ { \"a\" \"b\" # ;\n", false, false)
+	}},
+	{"fail-spec-syntax", func() string {
+		return parseDigest("grammar g ;\n@left \"a\" ;\nstart = ( [ {{ \"a\" \"b\" }} [ \"a\" \"b\" ;\n", false, false)
+	}},
 	{"fail-spec-unterminated", func() string { return parseDigest("grammar g ;\nstart = [ \"a\" \"b\" ] \"abc ;\n", false, false) }},
-	{"fail-spec-bad-pattern", func() string { return parseDigest("grammar g ;\nAA = /((a/ ;\nBB = /x{3,1}/ ;\nstart = AA BB ;\n", true, false) }},
+	{"fail-spec-bad-pattern", func() string {
+		return parseDigest("grammar g ;\nAA = /((a/ ;\nBB = /x{3,1}/ ;\nstart = AA BB ;\n", true, false)
+	}},
 }
 
 // Fails reports whether an operation is one of those that fail midway; Cheap whether it may be repeated many times.
-func Fails(i int) bool { return strings.HasPrefix(Ops[i].Name, "fail-") }
-func Cheap(i int) bool { return !strings.HasPrefix(Ops[i].Name, "generate-") }
+func Fails(i int) bool {
+	return strings.HasPrefix(Ops[i].Name, "fail-") || strings.HasPrefix(Ops[i].Name, "generate-fail-")
+}
+func Cheap(i int) bool {
+	return !strings.HasPrefix(Ops[i].Name, "generate-") || strings.HasPrefix(Ops[i].Name, "generate-fail-")
+}
 
 const (
 	specRepLiteral = "grammar rep ;\nREP = \"a+\" ;\nNUMBER = /[0-9]+/ ;\nstart = REP NUMBER \";\" ;\n"
